@@ -115,6 +115,10 @@ class Env(object):
             for k in ("states", "reads", "segments"):
                 tot[k] = tot.get(k, 0) + (r.stats.get(k) or 0)
         ctx.counts["lts_totals_repo"] = tot
+        if "TV" in rules:
+            ctx.count("programs", sum(1 for r in res if "tv_pairs" in r.stats))
+            ctx.count("tv_related_pairs", sum(r.stats.get("tv_pairs", 0) for r in res))
+            ctx.count("disagreements_checked", sum(r.stats.get("tv_comparisons", 0) for r in res))
         for r in res:
             for note in r.notes:
                 if note not in ctx.notes:
